@@ -1125,20 +1125,40 @@ theorem loop_map3 (x : Str) (p e : List Instr) (gp ge : Val → Val) : ∀ (l ac
       · simp only [ht, if_false, ih']
         simp
 
-theorem loop_reduce (cur nxt : Str) (step : List Instr) (g : Val → Val → Val) (P : Val → Prop)
-    (hP : ∀ acc v, P acc → P (g acc v)) : ∀ (l : List Val) (acc : Val) (log : Log), P acc →
+theorem loop_filter' (x : Str) (body : List Instr) (g : Val → Val) (l : List Val) (log : Log)
+    (h : ∀ v ∈ l, ∀ log, rec (env.bind x v) body true log = outOf (g v) log) :
+    loopList rec env x body (fun (acc : List Val) v r => .inr (if truthy r then v :: acc else acc))
+      (fun acc => .list acc.reverse) l [] log = (filterVal g l, log) := by
+  rw [loop_filter x body g l [] log h]; cases filterVal g l <;> simp
+
+theorem loop_map' (x : Str) (body : List Instr) (g : Val → Val) (l : List Val) (log : Log)
+    (h : ∀ v ∈ l, ∀ log, rec (env.bind x v) body true log = outOf (g v) log) :
+    loopList rec env x body (fun (acc : List Val) _ r => .inr (r :: acc))
+      (fun acc => .list acc.reverse) l [] log = (mapVal g l, log) := by
+  rw [loop_map x body g l [] log h]; cases mapVal g l <;> simp
+
+theorem loop_map3' (x : Str) (p e : List Instr) (gp ge : Val → Val) (l : List Val) (log : Log)
+    (hp : ∀ v ∈ l, ∀ log, rec (env.bind x v) p true log = outOf (gp v) log)
+    (he : ∀ v ∈ l, ∀ log, rec (env.bind x v) e true log = outOf (ge v) log) :
+    loopMap3 rec env x p e l [] log = (map3Val gp ge l, log) := by
+  rw [loop_map3 x p e gp ge l [] log hp he]; cases map3Val gp ge l <;> simp
+
+theorem loop_reduce (cur nxt : Str) (step : List Instr) (g : Val → Val → Val) (P : Val → Prop) :
+    ∀ (l : List Val) (acc : Val) (log : Log), P acc →
+    (∀ v ∈ l, ∀ acc, P acc → P (g acc v)) →
     (∀ v ∈ l, ∀ acc, P acc → ∀ log, rec ((env.bind nxt v).bind cur acc) step true log = outOf (g acc v) log) →
     loopReduce rec env cur nxt step l acc log = (reduceVal g l acc, log) := by
   intro l
   induction l with
-  | nil => intro acc log _ _; rfl
+  | nil => intro acc log _ _ _; rfl
   | cons v vs ih =>
-    intro acc log hacc h
+    intro acc log hacc hP h
     rw [loopReduce, h v (List.mem_cons_self ..) acc hacc log, reduceVal]
     rcases outOf_cases (g acc v) log with ⟨k, hk, ho⟩ | ⟨hne, ho⟩
     · rw [ho, hk]; rfl
     · rw [ho, andThen_nonerr hne]
-      exact ih _ log (hP acc v hacc) (fun w hw => h w (List.mem_cons_of_mem _ hw))
+      exact ih _ log (hP v (List.mem_cons_self ..) acc hacc) (fun w hw => hP w (List.mem_cons_of_mem _ hw))
+        (fun w hw => h w (List.mem_cons_of_mem _ hw))
 
 theorem loop_coalesce : ∀ (bvs : List (List Instr × Val)) (log : Log),
     (∀ p ∈ bvs, ∀ log, rec env p.1 true log = outOf p.2 log) →
@@ -1216,14 +1236,14 @@ theorem data_map3Val (gp ge : Val → Val) (l : List Val) (hg : ∀ v ∈ l, Dat
       exact data_consVal (hg v (List.mem_cons_self ..)) ih'
     · exact ih'
 
-theorem data_reduceVal (g : Val → Val → Val) (hg : ∀ acc v, Data acc → Data (g acc v)) (l : List Val) :
+theorem data_reduceVal (g : Val → Val → Val) (l : List Val) (hg : ∀ v ∈ l, ∀ acc, Data acc → Data (g acc v)) :
     ∀ acc, Data acc → Data (reduceVal g l acc) := by
   induction l with
   | nil => intro acc h; exact h
   | cons v vs ih =>
     intro acc h
     rw [reduceVal]; apply data_andThen
-    exact ih _ (hg acc v h)
+    exact ih (fun w hw => hg w (List.mem_cons_of_mem _ hw)) _ (hg v (List.mem_cons_self ..) acc h)
 
 theorem data_coalesceVal (vs : List Val) (h : ∀ v ∈ vs, Data v) : Data (coalesceVal vs) := by
   induction vs with
